@@ -173,7 +173,12 @@ def run_hdiff(case, d, labels, excluded, known_keys):
                 arr = m["arr"][:shape[0]].copy()
                 flat = arr.reshape(-1)
                 k = pos % flat.size
-                flat[k] = flat[k] + 1 if flat[k] < 100 else flat[k] - 1
+                if flat.dtype.kind in "iu" and (pos // flat.size) % 2:
+                    # a large change: the top bit of the stored value is flipped
+                    u = flat.view(flat.dtype.str.replace("i", "u"))
+                    u[k] = u[k] ^ (1 << (8 * flat.dtype.itemsize - 1))
+                else:
+                    flat[k] = flat[k] + 1 if flat[k] < 100 else flat[k] - 1
                 p.call("i", "SDwritedata", V("s"), i32s(*([0] * len(shape))), None, i32s(*shape), c02.native(arr))
                 what = "one element of dataset %s (layout %s, type %s)" % (o["name"], o["layout"], o["nt"])
             else:
@@ -209,8 +214,24 @@ def run_hdiff(case, d, labels, excluded, known_keys):
                     nat += a.tobytes()
                     q += k
                 p.call("i", "VSsetfields", V("v"), ",".join(f[0] for f in o["fields"]))
-                p.call("i", "VSseek", V("v"), rec)
-                p.call("i", "VSwrite", V("v"), bytes(nat), 1, 0)
+                if o.get("il"):
+                    # field-after-field storage is rewritten as a whole
+                    allnat = bytearray()
+                    for r_ in range(m["nrec"]):
+                        if r_ == rec:
+                            allnat += nat
+                            continue
+                        q = r_ * rs
+                        for _f, nt, order in o["fields"]:
+                            dt = np.dtype(NTS[nt][1])
+                            k = dt.itemsize * order
+                            allnat += np.frombuffer(m["recs"][q:q + k], dtype=dt).astype(dt.newbyteorder("=")).tobytes()
+                            q += k
+                    p.call("i", "VSseek", V("v"), 0)
+                    p.call("i", "VSwrite", V("v"), bytes(allnat), m["nrec"], 0)
+                else:
+                    p.call("i", "VSseek", V("v"), rec)
+                    p.call("i", "VSwrite", V("v"), bytes(nat), 1, 0)
                 what = "one field value of record %d of vdata %s" % (rec, o["name"])
             else:
                 av = c02.vals("int32", 2, 6).copy()
